@@ -116,6 +116,10 @@ template <class X> struct Hist {
                 { LibScope ls; rc = x.mgr < 2 ? X::ParseSingleUriExMm(&x.u, tb->p, tb->p + tb->n, &ep, mm(x.mgr)) : X::ParseSingleUriEx(&x.u, tb->p, tb->p + tb->n, &ep); }
                 if (x.mgr < 2 && lw.available && lw.allocs) c->violation("C13", fmt("hist/%s/parse/libc-allocation-with-custom-manager", X::tag()), esc(t));
                 if (rc != URI_SUCCESS) continue;
+                // C07's last sentence also holds for what parsing returns: the structure is well formed (which text the components
+                // hold is C02's business, and an object that misrepresents its text does not enter the history)
+                { ObjView pv = read_uri<X>(x.u); if (!pv.malformed.empty()) { Str cls = pv.malformed.substr(0, pv.malformed.find(':') == Str::npos ? pv.malformed.size() : pv.malformed.find(':')); for (auto& ch : cls) if (ch == ' ') ch = '-';
+                    c->violation("C07", fmt("hist/%s/parse/malformed-%s", X::tag(), cls.c_str()), fmt("parse(\"%s\"): %s", esc(t).c_str(), pv.malformed.c_str())); } }
                 if (!faithful_uri<X>(x.u, t)) { c->count("skipped_unfaithful_parse"); LibScope ls; if (x.mgr < 2) X::FreeUriMembersMm(&x.u, mm(x.mgr)); else X::FreeUriMembers(&x.u); continue; }
                 x.live = true; x.damaged = false; x.texts.clear(); x.texts.push_back(tb); x.origin = "parse(\"" + esc(t) + "\")"; log(fmt("s%d=", d) + x.origin);
                 check_object(d, "parse");
